@@ -4,11 +4,12 @@ Real code: lena.context.intersection / difference / update_recursively / update_
 (lena/context/functions.py).  Model: lean/LenaModel/Model/C07.lean (+ Model/Val.lean),
 theorems lean/LenaModel/Props/C07.lean (helper lemmas lean/LenaModel/Lemmas/C07.lean).
 
-Cases hold plain JSON values: a dictionary is a JSON object with string keys, a leaf is one of
-0, false, null, "", [], 1, true, "x", [1], [{}], 2, "y" (truthy and falsy scalars, lists); `{}` is the empty
-dictionary.  For the model a case is translated to slot vectors over the sorted key alphabet of the case, a
-leaf to the number of its class under Python `==` (so False and 0, True and 1 coincide: the four functions
-observe leaves only through `==`, truthiness and isinstance(., dict)).
+Cases are JSON.  A dictionary is a JSON object (a key "#n" stands for the integer key n); a leaf is a JSON scalar or
+list, or a marker object {"$": kind, "v": …} for what JSON cannot express: tuple, set, frozenset, float, bytes, an opaque
+object with value equality, a dict subclass.  `_build` turns a case value into new, tree-shaped Python objects for every
+call of the real code.  For the model a case is translated to slot vectors over the sorted key alphabet of the case, a
+leaf to the number of its class under Python `==` (so False, 0 and 0.0, True and 1, {1} and frozenset({1}) coincide: the
+four functions observe leaves only through `==`, truthiness and isinstance(., dict)).
 """
 import copy
 import itertools
@@ -120,43 +121,70 @@ TRUSTED = [
     "hand transcription of intersection, difference, update_recursively (all argument forms), update_nested (with its "
     "nested_dicts test), str_to_dict after the split (lena/context/functions.py), Zip._create_context, group_plots, "
     "_update_with_group, LenaSplit._get_context into LenaModel/Model/C07.lean + C07Ext.lean on slot vectors (Model/Val.lean) "
-    "and, with object identities and a write log, into Model/C07Tok.lean + C07Mut.lean; validated by this correspondence "
+    "and, with object identities and write logs, into Model/C07Tok.lean + C07Mut.lean; validated by this correspondence "
     "check (values, exception classes, the id() pattern of results and arguments after the call, the objects whose items "
     "really changed)",
     "the slot-vector reading of dictionaries: iteration order and mutation-during-iteration are not modelled (the loops "
     "of the four functions read and write only the current key)",
     "the specification vocabulary (contained, diffSpec, untouchedL, getPath, depthL, nestDepth, mnV, toksV, dictToksV, subsV, "
-    "eraseV) means what its Python reference in harness/props/c07.py means: compared on every generated case",
+    "eraseV) means what its Python reference in harness/props/c07.py means: compared on every generated case.  For the "
+    "finite levels 0, 1, 2, … both the Lean `contained level` and the Python references contained/ref_glb/ref_diff follow "
+    "the level convention of the code's docstrings and were written by the same author: they are not an independent "
+    "oracle for what 'contained at level 1' ought to mean (inter_level0 / inter_level1_key / inter_level_step say what the "
+    "levels do without that order)",
+    "the write logs are part of the transcription: that intersection / difference contain no statement storing into an "
+    "argument is read off the code; the theorems then say that every logged store goes into a new object, and the harness "
+    "checks object by object that no dictionary of an argument changed",
     "JSON line protocol encoders (harness/props/c07.py, drivers/C07.lean)",
 ]
 ASSUMPTIONS = [
-    "leaves are observed only through ==, truthiness and isinstance(., dict): a leaf is modelled by its class under == "
-    "(theorems are generic in the leaf type and in the truthiness of leaves); lists are leaves",
+    "leaves are observed only through ==, truthiness and isinstance(., dict): a leaf is modelled by its class under Python's "
+    "== (theorems are generic in the leaf type and in the truthiness of leaves); lists, tuples, sets, floats, bytes, objects "
+    "are leaves",
+    "leaves have a reflexive == that copy.deepcopy preserves (the leaf type of the model has decidable equality): no NaN, no "
+    "objects compared by identity — for those intersection(a, a) == {} on the real code "
+    "(notes/C07_observation_leaf_equality.md, judged outside the statement)",
+    "arguments are tree-shaped and pairwise disjoint object graphs (no object reachable twice, no object shared between "
+    "arguments) when a call starts, except intersection(a, a) / difference(a, a) which are exercised; the token and write-log "
+    "models allocate per occurrence, whereas copy.deepcopy memoises.  After update_recursively(d, other) this is no longer "
+    "true of (d, other) — sub-dictionaries of other are stored in d uncopied, by design — and the `seq` cases follow "
+    "successive calls on one d through exactly that: the model predicts, and the real objects confirm, that a later update "
+    "can write into an earlier `other` (reported in the evidence labels, not judged)",
+    "dictionaries are plain dict or a subclass with dict semantics; keys are strings or integers; `level` is an int",
     "copy.deepcopy is the identity on values (value model) and allocates new objects for every mutable object (token model); "
-    "an assignment `x[key] = v` changes the object x only (write-log model); 'does not change its arguments' is in addition "
-    "checked on the real code by before/after snapshots, object by object",
-    "a self-referential `other` of update_nested is not a value of the model (its LenaValueError is exercised, and the test that "
-    "raises it is proved dead for finite values)",
+    "an assignment `x[key] = v` / `del x[key]` changes the object x only (write-log model)",
+    "identities are compared in the correspondence (not in the oracle) because the theorems inter_is_copy, diff_objects, "
+    "update_objects, update_nested_writes are about them; the oracle judges values, plus 'shares no mutable object with an "
+    "argument' for intersection ('as a deep copy')",
+    "a self-referential `other` of update_nested is not a value of the model: its documented LenaValueError is compared with "
+    "the two-line model updateNestedCyclic (cycles of length 1-5 after 0-2 further dictionaries); the test that raises it is "
+    "proved dead for finite values",
     "str.split('.') is trusted: str_to_dict is modelled from its parts on; which strings are malformed beyond that is C08's",
     "output.changed holds hashable scalars (as documented: a boolean) in the group_plots / _update_with_group cases",
 ]
-RULE = ("pair cases (a, b): intersection(a,b), intersection(b,a), intersection(a,a), difference(a,b), "
-        "update_recursively(intersection, difference) for every level in {-1,0,1,2,3} (exhaustive scopes of the quick tier: "
-        "{-1,0,1,2}, the dictionaries there have depth <= 2), update_recursively(copy(a), b), the "
-        "identity pattern (id()) of the results and, for update_recursively, of d and other afterwards plus the set of objects "
-        "whose items changed; exhaustive: all pairs of dictionaries over keys {a,b} of depth <= 2 with one falsy and one truthy "
-        "leaf chosen by the seed (quick: 144^2 pairs) or three leaves (thorough: 400^2 pairs), all pairs over keys {a,b,c} of "
-        "depth 1 with three leaves (64^2), all triples of depth-1 dictionaries over {a,b} x 5 levels (all 6 permutations, both "
-        "nestings); sampled per seed (quick / thorough): 2000 / 60000 pairs and 2000 / 40000 tuples of 2-4 dictionaries over 3 "
-        "keys up to depth 3 with the whole leaf palette (0, False, None, '', [], 1, True, 'x', [1], 2, 'y', [{}]), 60% of them "
-        "neighbours of each other, levels also -2 and 4; 333 / 10000 narrow pairs of depth 4-6 with levels -1,-2,1,2,4,5,6; "
-        "1200 / 15000 update_nested calls with key chains of length 0-3 ending in an absent key or a non-dictionary (objects "
-        "after the call and write log compared), 4 self-referential ones; 400 / 3000 calls with non-dictionary arguments, "
-        "100 / 750 with keyword arguments; 500 / 8000 each of: update_recursively with a string / dictionary / other `other` and "
-        "with `value`; Zip over 1-4 stub sources (fill-compute or fill-request, optional namedtuple fields, 40% with a second "
-        "tuple of values through the same Zip object); group_plots and Split._get_context over branches built from real "
-        "SetContext elements; _update_with_group directly and through MapGroup.run.  Non-trivial: the arguments are non-empty "
-        "dictionaries that are not all equal (update_nested: d has the key).")
+RULE = ("value domain: nested dictionaries (plain or a dict subclass) with string or integer keys; leaves 0, False, None, '', [], "
+        "0.0, (), set(), 1, True, 'x', [1], 2, 'y', [{}], (1,), ([1],), ({'x': [1]},), {1, 2}, frozenset({1}), 1.5, "
+        "1.5000000000000002, an opaque object with value equality, b'x'.  "
+        "pair cases (a, b): intersection(a,b), intersection(b,a), intersection(a,a), difference(a,b), "
+        "update_recursively(intersection, difference) for every level in {-1,0,1,2,3} (exhaustive depth<=2 scopes of the quick "
+        "tier: {-1,0,1,2}), the calls without `level` and with a positional one, difference(a,a), update_recursively(copy(a), b), "
+        "the identity pattern (id()) of the results, the dictionaries of the arguments whose items changed, and for "
+        "update_recursively d and other afterwards; exhaustive: all pairs of dictionaries over keys {a,b} of depth <= 2 with "
+        "leaves 0,'x' (quick: 144^2 pairs) or 0,None,'x' (thorough: 400^2 pairs), all pairs over {a,b,c} of depth 1 with three "
+        "leaves rotating with the seed (64^2), all 144 pairs over one key of depth <= 3 with leaves 0,None,'x', all triples of "
+        "depth-1 dictionaries over {a,b} x 5 levels (all 6 permutations, both nestings); systematic: of the 21609 dictionaries "
+        "over {a,b} of depth <= 3 with leaves 0,'x' every 12th with one partner (quick: 1801 pairs) / every one with two partners "
+        "(thorough: 43218 pairs) — depth 3 is otherwise sampled only; sampled per seed (quick / thorough): 1600 / 60000 pairs "
+        "(60% depth 3) and 1600 / 40000 tuples of 2-4 dictionaries over 3 keys up to depth 3 with the whole palette, 60% "
+        "neighbours of each other, levels also -2 and 4; 266 / 10000 narrow pairs of depth 4-6 with levels -1,-2,1,2,4,5,6; "
+        "1000 / 15000 update_nested calls with key chains of length 0-12 ending in an absent key or a non-dictionary (objects "
+        "after the call and write log compared), 14 self-referential ones; 400 / 3000 calls with non-dictionary arguments, "
+        "100 / 750 with keyword arguments; 400 / 8000 each of: update_recursively with a string / dictionary / other `other` and "
+        "with `value`; 2-4 successive update_recursively calls on one d with every `other` inspected afterwards; Zip over 1-4 "
+        "stub sources (fill-compute or fill-request, optional namedtuple fields, 40% with a second tuple of values through the "
+        "same Zip object); group_plots and Split._get_context over branches built from real SetContext elements; "
+        "_update_with_group directly and through MapGroup.run (one or two results per member).  Non-trivial: the arguments are "
+        "non-empty dictionaries that are not all equal (update_nested: d has the key).")
 CASE_TIMEOUT = 10
 
 LEVELS = [-1, 0, 1, 2, 3]
@@ -404,7 +432,7 @@ def _gen(ctx, n_exh_leaves, n_pair, n_multi, n_nested, n_bad, n_ext):
     u1 = _universe(["a", "b"], [f, t], 1)
     ud3 = _universe(["a", "b"], [0, "x"], 3)              # 21 609 dictionaries of depth <= 3: pairs sampled systematically
     ud3_1 = _universe(["a"], [0, None, "x"], 3)            # 12 dictionaries over one key, depth <= 3: all pairs
-    deep_every = 6 if n_exh_leaves < 3 else 8
+    deep_every = 8
     # (these dictionaries have depth <= 2: level 3 is level -1 there — `level_covers_*` — and is left to the sampled
     # scopes in the quick tier)
     exh_levels = [-1, 0, 1, 2] if n_exh_leaves < 3 else LEVELS
@@ -420,15 +448,16 @@ def _gen(ctx, n_exh_leaves, n_pair, n_multi, n_nested, n_bad, n_ext):
             for j, b in enumerate(u2):
                 # ("paths": also compare the Lean path vocabulary untouchedL/getPath with the Python reference, the id()
                 # pattern of the results with the token model and the objects written by update_recursively with the write
-                # log; on a sixth / an eighth of the exhaustive scope and on every sampled pair)
-                yield {"op": "pair", "a": a, "b": b, "levels": exh_levels, "paths": (i + j) % deep_every == 0}
+                # log; on an eighth of the exhaustive scope and on every sampled pair)
+                yield {"op": "pair", "a": a, "b": b, "levels": exh_levels, "paths": (i + j) % deep_every == 0,
+                       "idem": j == (i * 7) % len(u2)}
 
     def exh_depth3():
         for a in ud3_1:
             for b in ud3_1:
                 yield {"op": "pair", "a": a, "b": b, "levels": LEVELS, "paths": True}
         n3 = len(ud3)
-        stride, partners = (9, 1) if n_exh_leaves < 3 else (1, 2)
+        stride, partners = (12, 1) if n_exh_leaves < 3 else (1, 2)
         for i in range(0, n3, stride):
             for j in range(partners):
                 b = ud3[(i * 7919 + 13 + 1009 * j) % n3] if (i + j) % 3 else ud3[(i + 1 + j) % n3]     # far and near partners
@@ -631,7 +660,7 @@ def _gen(ctx, n_exh_leaves, n_pair, n_multi, n_nested, n_bad, n_ext):
 
 def gen_cases(ctx):
     if ctx.tier == "quick":
-        return _gen(ctx, 2, 2000, 2000, 1200, 400, 500)
+        return _gen(ctx, 2, 1600, 1600, 1000, 400, 400)
     return _gen(ctx, 3, 60000, 40000, 15000, 3000, 8000)
 
 
@@ -740,23 +769,26 @@ def ref_str_to_dict(s, *value):
     return res
 
 
+def _without(a, p, replace=_ABSENT):
+    """a with the item at path p removed (or replaced); only the dictionaries along the path are copied"""
+    c = dict(a)
+    if len(p) == 1:
+        if replace is _ABSENT:
+            del c[p[0]]
+        else:
+            c[p[0]] = replace
+    else:
+        c[p[0]] = _without(a[p[0]], p[1:], replace)
+    return c
+
+
 def _prunings(a, limit=12):
-    """some dictionaries contained in a: a with one item removed / one sub-dictionary emptied (recursively)"""
+    """some dictionaries contained in a: a with one item removed / one sub-dictionary emptied (read-only views)"""
     out = [{}]
     for p in _paths(a)[:limit]:
-        c = copy.deepcopy(a)
-        cur = c
-        for k in p[:-1]:
-            cur = cur[k]
-        del cur[p[-1]]
-        out.append(c)
+        out.append(_without(a, p))
         if isinstance(get_path(a, p), dict):
-            c2 = copy.deepcopy(a)
-            cur = c2
-            for k in p[:-1]:
-                cur = cur[k]
-            cur[p[-1]] = {}
-            out.append(c2)
+            out.append(_without(a, p, {}))
     return out
 
 
@@ -883,9 +915,19 @@ def run_impl(case):
     return {"z": jdump(_unbuild(_run_impl(case)))}
 
 
+_UNZ_CACHE = [None, None]
+
+
 def _unz(r):
-    """decode a stored result (and rebuild the Python values in it)"""
-    return _build(json.loads(r["z"])) if isinstance(r, dict) and "z" in r else r
+    """decode a stored result (and rebuild the Python values in it); the judges only read it, so the last one is kept
+    (oracle and classify are called one after the other on the same result)"""
+    if not (isinstance(r, dict) and "z" in r):
+        return r
+    if _UNZ_CACHE[0] is r["z"]:
+        return _UNZ_CACHE[1]
+    v = _build(json.loads(r["z"]))
+    _UNZ_CACHE[0], _UNZ_CACHE[1] = r["z"], v
+    return v
 
 
 def _run_impl(case):
@@ -904,11 +946,13 @@ def _run_impl(case):
             _tok_tree(b, enc, ctr, idmap)
             before_ab = _shallow_all(a, b)
         # the calls with the default level and with a positional level; an argument against itself
-        out["default"] = {"iab": _call(lc.intersection, a, b), "dab": _call(lc.difference, a, b),
-                          "dab_pos": _call(lc.difference, a, b, -1), "daa": _call(lc.difference, a, a)}
-        for name in ("iab", "dab", "dab_pos", "daa"):
-            if "r" in out["default"][name]:
-                out["default"][name] = {"r": copy.deepcopy(out["default"][name]["r"])}
+        idem = case.get("idem", True)
+        if idem:
+            out["default"] = {"iab": _call(lc.intersection, a, b), "dab": _call(lc.difference, a, b),
+                              "dab_pos": _call(lc.difference, a, b, -1), "daa": _call(lc.difference, a, a)}
+            for name in ("iab", "dab", "dab_pos", "daa"):
+                if "r" in out["default"][name]:
+                    out["default"][name] = {"r": copy.deepcopy(out["default"][name]["r"])}
         for lv in case["levels"]:
             r = {}
             iab = _call(lc.intersection, a, b, level=lv)
@@ -916,13 +960,13 @@ def _run_impl(case):
             if "r" in iab:
                 r["iab_shares"] = _shares(iab["r"], a, b)
             r["iba"] = _call(lc.intersection, b, a, level=lv)
-            iaa = _call(lc.intersection, a, a, level=lv)
-            r["iaa"] = iaa
-            if "r" in iaa:
-                r["iaa_shares"] = _shares(iaa["r"], a)
+            if idem:
+                iaa = _call(lc.intersection, a, a, level=lv)
+                r["iaa"] = iaa
+                if "r" in iaa:
+                    r["iaa_shares"] = _shares(iaa["r"], a)
             dab = _call(lc.difference, a, b, level=lv)
             r["dab"] = dab
-            r["changed"] = _snap(a, b) != s0
             if idmap is not None and "r" in iab and "r" in dab:
                 # which objects do the results consist of?  (before anything is updated)
                 r["tok"] = {"inter": _tok_result(iab["r"], enc, idmap), "diff": _tok_result(dab["r"], enc, idmap)}
@@ -933,11 +977,9 @@ def _run_impl(case):
                 r["iab"] = {"r": copy.deepcopy(iab["r"])}
                 r["dab"] = {"r": copy.deepcopy(dab["r"])}
                 rec = iab["r"]
-                dsnap = _snap(dab["r"])
                 u = _call(lc.update_recursively, rec, dab["r"])
                 r["rec"] = {"r": copy.deepcopy(rec)} if "r" in u else u
-                # update_recursively documents nothing about `other`, but the reconstruction must not damage a or b
-                r["changed_by_update"] = _snap(a, b) != s0 or _snap(dab["r"]) != dsnap
+
             # compact the result (memory of the big runs): values that repeat another one are stored as a marker
             if r["iba"] == r["iab"]:
                 r["iba"] = "=iab"
@@ -945,6 +987,7 @@ def _run_impl(case):
                 if r.get(name) == {"r": a}:
                     r[name] = "=a"
             out["lv"].append(r)
+        out["changed"] = _snap(a, b) != s0
         d = _fresh(case["a"])
         if idmap is not None:
             # which objects does update_recursively write to, what do d and other consist of afterwards?
@@ -956,10 +999,8 @@ def _run_impl(case):
             u = _call(lc.update_recursively, d, o)
             out["mut"] = {"d": _tok_result(d, enc, mp), "other": _tok_result(o, enc, mp),
                           "written": _written(before, mp)}
-            out["upd_changed_other"] = _snap(o) != _snap(case["b"])
         else:
             u = _call(lc.update_recursively, d, b)
-            out["upd_changed_other"] = _snap(b) != _snap(case["b"])
         out["upd"] = {"r": d} if "r" in u else u
         return out
     if op == "multi":
@@ -1489,6 +1530,8 @@ def compare(case, res, replies):
     for m in replies:
         if "err" in m:
             return f"model driver error: {m['err']}"
+    if isinstance(res, dict) and res.get("__timeout__"):
+        return None          # reported by the watchdog as a failing input
     case = _build(case)
     res = _unz(res)
     replies = [_unz(m) for m in replies]
@@ -1524,7 +1567,7 @@ def compare(case, res, replies):
                 got = _obs(e, r.get(name))
                 if got != {"r": ml[name]}:
                     return f"level {lv}: {name}: impl {got} vs model {ml[name]}"
-            if _obs(e, r["iaa"]) != {"r": e.val(a)}:
+            if "iaa" in r and _obs(e, r["iaa"]) != {"r": e.val(a)}:
                 return f"level {lv}: intersection(a, a): impl {_obs(e, r['iaa'])} vs model (`inter_idem`) {e.val(a)}"
             if ml["dspec"] != e.val(ref_diff(lv, a, b)):
                 return (f"level {lv}: Lean `diffSpec` gives {ml['dspec']}, the Python reference of 'the items of d1 not "
@@ -1535,13 +1578,13 @@ def compare(case, res, replies):
                     return f"level {lv}: Lean `contained` gives {ml[name]} for {name}, the Python reference {ref[name]}"
             if not (ml["ciab_a"] and ml["ciab_b"]):
                 return f"level {lv}: the model's intersection is not contained in an argument (Lean `contained`): {ml}"
-        if -1 in case["levels"]:
+        if -1 in case["levels"] and "default" in res:
             unl = m["r"][case["levels"].index(-1)]
             for name, key in (("iab", "iab"), ("dab", "dab"), ("dab_pos", "dab")):
                 if _obs(e, res["default"][name]) != {"r": unl[key]}:
                     return (f"{name} with the default / positional level: impl {_obs(e, res['default'][name])} vs model at "
                             f"level -1 {unl[key]}")
-        if _obs(e, res["default"]["daa"]) != {"r": [None] * len(e.keys)}:
+        if "default" in res and _obs(e, res["default"]["daa"]) != {"r": [None] * len(e.keys)}:
             return f"difference(a, a): impl {_obs(e, res['default']['daa'])} vs model (empty)"
         if len(replies) > 3 and "mut" in res:
             msg = _compare_mut("update_recursively", res["mut"], replies[3], _tok_tree(b, e, [_count_toks(a, e)]))
@@ -1758,12 +1801,12 @@ def _falsy_note(v):
     return " (a falsy value)" if not v else ""
 
 
-def _oracle_inter(lv, ds, res, what):
+def _oracle_inter(lv, ds, res, what, enumerate_small=True, prunings=None):
     """res = intersection(*ds, level=lv): contained in every argument, and the greatest such dictionary"""
     for i, d in enumerate(ds):
         if not contained(lv, res, d):
             return f"{what} = {res} is not contained in argument {i} = {d} (level {lv})"
-    cands = list(ds) + _prunings(ds[0])
+    cands = list(ds) + (_prunings(ds[0]) if prunings is None else prunings)
     # for small arguments: every dictionary over their top-level keys and item values (the law itself, not a reference)
     keys = []
     vals = []
@@ -1773,7 +1816,7 @@ def _oracle_inter(lv, ds, res, what):
                 keys.append(k)
             if not any(v is x or (type(v) is type(x) and v == x) for x in vals):
                 vals.append(v)
-    if keys and (len(vals) + 1) ** len(keys) <= 27:
+    if enumerate_small and keys and (len(vals) + 1) ** len(keys) <= 27:
         for combo in itertools.product([_ABSENT] + vals, repeat=len(keys)):
             cands.append({k: v for k, v in zip(keys, combo) if v is not _ABSENT})
     glb = ds[0]
@@ -1823,15 +1866,17 @@ def _oracle(case, res):
     op = case["op"]
     if op == "pair":
         a, b = case["a"], case["b"]
+        prun = _prunings(a)
+        if res.get("changed"):
+            return f"intersection/difference changed an argument (d1={a}, d2={b})"
         for lv, r in zip(case["levels"], res["lv"]):
             r = _expand(r, a)
             for name in ("iab", "iba", "iaa", "dab"):
-                if "e" in r[name]:
+                if name in r and "e" in r[name]:
                     return f"level {lv}: {name} raised {r[name]['e']} for d1={a}, d2={b}"
-            if r["changed"]:
-                return f"level {lv}: intersection/difference changed an argument (d1={a}, d2={b})"
-            iab, iba, iaa, dab = r["iab"]["r"], r["iba"]["r"], r["iaa"]["r"], r["dab"]["r"]
-            msg = _oracle_inter(lv, [a, b], iab, f"intersection({a}, {b}, level={lv})")
+            iab, iba, dab = r["iab"]["r"], r["iba"]["r"], r["dab"]["r"]
+            iaa = r["iaa"]["r"] if "iaa" in r else a
+            msg = _oracle_inter(lv, [a, b], iab, f"intersection({a}, {b}, level={lv})", enumerate_small=lv in (-1, 1), prunings=prun)
             if msg:
                 return msg
             if iab != iba:
@@ -1841,7 +1886,7 @@ def _oracle(case, res):
             if r["iab_shares"]:
                 return (f"intersection({a}, {b}, level={lv}) = {iab} is not a deep copy: it shares a mutable object "
                         f"(dictionary, list, set or object) with an argument")
-            if r["iaa_shares"]:
+            if r.get("iaa_shares"):
                 return (f"intersection({a}, {a}, level={lv}) = {iaa} is not a deep copy: it shares a mutable object "
                         f"(dictionary, list, set or object) with its argument")
             # difference: exactly the items of d1 not contained in d2
@@ -1866,10 +1911,10 @@ def _oracle(case, res):
                 return (f"level {lv}: updating the intersection {iab} with the difference {dab} gives {rec}, "
                         f"not d1 = {a} (d2 = {b})")
         # the calls without `level` (and with a positional one) are the unlimited ones; an argument against itself
-        for name, ref, what in (("iab", ref_glb(-1, a, b), f"intersection({a}, {b})"),
+        for name, ref, what in (() if "default" not in res else (("iab", ref_glb(-1, a, b), f"intersection({a}, {b})"),
                                 ("dab", ref_diff(-1, a, b), f"difference({a}, {b})"),
                                 ("dab_pos", ref_diff(-1, a, b), f"difference({a}, {b}, -1)"),
-                                ("daa", {}, f"difference({a}, {a})")):
+                                ("daa", {}, f"difference({a}, {a})"))):
             got = res["default"][name]
             if "e" in got:
                 return f"{what} raised {got['e']}"
@@ -2145,6 +2190,8 @@ def _has_falsy_leaf(v):
 
 
 def classify(case, res):
+    if isinstance(res, dict) and res.get("__timeout__"):
+        return [case["op"] + ":timeout"]
     case = _build(case)
     res = _unz(res)
     op = case["op"]
@@ -2273,13 +2320,18 @@ def shrink(case):
 # ---- MANIFEST texts ------------------------------------------------------------------------
 LEVEL_TEXT = ("Lean 4 theorems about a transcribed model of intersection/difference/update_recursively/update_nested and of "
               "their callers (Zip._create_context, group_plots, _update_with_group, LenaSplit._get_context) on "
-              "nested dictionaries of any width and depth, any leaf type and every level (no bound), including which objects "
-              "are created, shared and written to; the model is tied to "
-              "/repo by a correspondence check (exhaustive over small alphabets, sampled over 3 keys / depth 3 / the whole "
-              "leaf palette) and the laws themselves are evaluated on the real code as a direct oracle.")
+              "nested dictionaries of any width and depth, any leaf type with decidable equality and every level (no bound), "
+              "including which objects are created, shared and written to (token and write-log models); the model is tied to "
+              "/repo by a correspondence check (exhaustive over small alphabets up to depth 3 with two or three scalar leaves, "
+              "sampled over 3 keys / depth 3-6 / a palette with tuples, sets, floats, objects, integer keys, dict subclasses) and "
+              "the laws themselves are evaluated on the real code as a direct oracle.  At the finite levels 0, 1, 2, … the "
+              "lattice theorems are relative to the level-indexed containment read off the code's docstring.")
 LEVEL_NOTE = ("Trusted: Lean kernel (+ propext, Classical.choice, Quot.sound), the hand transcription validated by the "
-              "correspondence run (values, exceptions, id() pattern), the slot-vector reading of dictionaries, deepcopy as "
-              "identity on values / fresh objects in the token model, the JSON protocol.  'Arguments unchanged' is checked by "
-              "snapshots on the real code, not proved.")
+              "correspondence run (values, exceptions, id() pattern, changed objects), the slot-vector reading of dictionaries, "
+              "deepcopy as identity on values / fresh objects per occurrence, reflexive deepcopy-stable leaf equality, "
+              "tree-shaped disjoint arguments, the JSON protocol.  'Does not change an argument' is a theorem about the write "
+              "log of the transcription (every store of intersection / difference goes into a new object; update_recursively "
+              "writes only into d's dictionaries; update_nested into d and one dictionary of other) and is checked on the real "
+              "code object by object; that the transcription has no further stores is part of the trusted reading.")
 TECHNIQUE = "Lean 4 proof over hand-written model + correspondence check (exhaustive small scopes, sampled deeper) + law oracle"
 DESIGN_REF = "DESIGN.md section 3, C07"
